@@ -114,7 +114,7 @@ func runC09(c *Ctx) {
 		mirPt, _ := f.PointOf(mirrors[0])
 		sizePt, _ := f.PointOf(sizes[0])
 		// membership read before the mutation
-		if _, found := f.reach(Point{mutPt.B, mutPt.I + 1}, nil, func(pt Point, atExit bool) bool { return !atExit && pt == hasPt }); found || !pathExists(f, hasPt, mutPt) {
+		if _, found := f.reach(Point{mutPt.B, mutPt.I + 1}, nil, func(pt Point, atExit bool) bool { return !atExit && f.At(pt, hasPt) }); found || !pathExists(f, hasPt, mutPt) {
 			r.Fail("size/has-before-mutation", key, f.PosOf(hasPt), "membership must be read before the trie is mutated (afterwards it always reports the new state and the size drifts)")
 		} else {
 			r.Pass("size/has-before-mutation", key, f.PosOf(hasPt), "has(key) precedes tree."+a.mutate)
@@ -330,7 +330,7 @@ func runC09(c *Ctx) {
 }
 
 func pathExists(f *FuncCFG, from, to Point) bool {
-	_, found := f.reach(from, nil, func(pt Point, atExit bool) bool { return !atExit && pt == to })
+	_, found := f.reach(from, nil, func(pt Point, atExit bool) bool { return !atExit && f.At(pt, to) })
 	return found
 }
 
@@ -653,7 +653,7 @@ func checkStoredValueNonNil(r *Reporter, p *Prog, pkg string, info *types.Info) 
 		return false
 	}
 	for _, e := range nilEdges {
-		if w, found := f.reach(Point{e.From.Succs[e.Succ], 0}, &searchOpts{AvoidNode: reassigns}, func(pt Point, atExit bool) bool { return !atExit && pt == updates[0] }); found {
+		if w, found := f.reach(Point{e.From.Succs[e.Succ], 0}, &searchOpts{AvoidNode: reassigns}, func(pt Point, atExit bool) bool { return !atExit && f.At(pt, updates[0]) }); found {
 			r.Fail("presence/stored-value-non-nil", key, f.PosOf(updates[0]), "tree.Update is reachable with "+v.Name()+" known to be nil: the stored leaf is indistinguishable from an absent key", w...)
 			return
 		}
